@@ -40,7 +40,7 @@ func init() {
 			var bs []core.Batch
 			for _, k := range []string{"refs", "datavalue", "classify", "equal", "responses"} {
 				for s := 0; s < tierPick(tier, 1, 6); s++ {
-					bs = append(bs, core.Batch{Name: fmt.Sprintf("%s-%d", k, s), TimeoutS: 600, Params: core.Params(c18Params{Kind: k, Shard: s, N: tierPick(tier, 20000, 1000000)})})
+					bs = append(bs, core.Batch{Name: fmt.Sprintf("%s-%d", k, s), TimeoutS: 600, Params: core.Params(c18Params{Kind: k, Shard: s, N: tierPick(tier, 60000, 1000000)})})
 				}
 			}
 			return bs
